@@ -1589,6 +1589,24 @@ func managerSession(run *hx.Run, r *hx.RNG, nops int) {
 			}
 		case k < 930: // no-op update
 			s.update(s.conf, 0, false, "config-noop")
+		case k < 950 && r.Chance(25): // a matching replacement that also lists the active root's fingerprint in upper case, inactive, last
+			idx, roots, _ := s.d.State().CARoots(nil)
+			var rs []*structs.CARoot
+			var extra *structs.CARoot
+			for _, rt := range roots {
+				c := *rt
+				rs = append(rs, &c)
+				if rt.Active && strings.ToUpper(rt.ID) != rt.ID {
+					e := *rt
+					e.ID, e.Active = strings.ToUpper(rt.ID), false
+					extra = &e
+				}
+			}
+			if extra != nil {
+				rs = append(rs, extra)
+			}
+			s.d.ApplyCARaw(&structs.CARequest{Op: structs.CAOpSetRoots, Index: idx, Roots: rs})
+			run.Tag("mgr:root-set-with-case-variant-of-active-id")
 		case k < 950: // a stale conditional root replacement straight into Raft (must be refused)
 			idx, roots, _ := s.d.State().CARoots(nil)
 			var rs []*structs.CARoot
@@ -1760,7 +1778,9 @@ func exhaustiveSession(run *hx.Run, r *hx.RNG, wide bool) {
 
 func bareSession(run *hx.Run, r *hx.RNG, nops int) {
 	s := newSess(run, true, uint64(r.Intn(10)))
-	ids := []string{"a", "b", "c", "d"}
+	// small universe chosen to collide, including spellings of the same hex fingerprint that
+	// differ only in letter case (the roots table is keyed by the exact ID)
+	ids := []string{"a", "b", "c", "d", "A", "B", "ab:cd", "AB:CD", "Ab:cD", "ab:cd"}
 	var staleR, staleC []uint64
 	pickIdx := func(cur uint64, stale []uint64) uint64 {
 		switch k := r.Intn(100); {
